@@ -337,6 +337,14 @@ func HolesFamily(t universe.Affine) []Operand {
 	}
 	mp := geom.NewMultiPolygon([]geom.Polygon{polys[0], polys[5]})
 	out = append(out, mkOp(mp.AsGeometry(), "holes"))
+	// MultiPolygons whose holed member is first / last / in the middle, the hole otherwise unoccupied
+	// (what lies strictly inside the hole is nearest to the hole ring, not to any shell)
+	far, far2 := t.Polygon(sq(7, 7, 9, 9)), t.Polygon(sq(-4, 0, -2, 2))
+	for _, ms := range [][]geom.Polygon{{polys[0], far}, {far, polys[0]}, {far, polys[1], far2}, {{}, far2, polys[0]}} {
+		out = append(out, mkOp(geom.NewMultiPolygon(ms).AsGeometry(), "holes"))
+	}
+	out = append(out, mkOp(geom.NewGeometryCollection([]geom.Geometry{lines[2].AsGeometry(), geom.NewMultiPolygon([]geom.Polygon{far, polys[0]}).AsGeometry()}).AsGeometry(), "holes"))
+	out[len(out)-1].MembersDisjoint = true
 	// the same overlapping pairs nested one level down, split over two nested collections, and next to a third member
 	gc := func(ms ...geom.Geometry) geom.Geometry { return geom.NewGeometryCollection(ms).AsGeometry() }
 	for _, pr := range [][2]int{{0, 10}, {0, 4}, {1, 6}, {3, 7}, {2, 10}, {0, 11}} {
